@@ -82,7 +82,9 @@ def case_eigh(ctx, rng):
     x, feats = lingen.hermitian_matrix(ctx, rng, fermionic=False)
     if not x.blocks:
         return
-    if rng.random() < 0.12:
+    if "integer-typed-blocks" in feats:
+        pass
+    elif rng.random() < 0.12:
         f_ = rng.choice([1e-9, 1e-12, 1e7])
         for s_ in list(x.blocks):
             x.blocks[s_] = x.blocks[s_] * f_
